@@ -171,6 +171,40 @@ theorem triangulateCell_mem {isConvex : List Pt → Bool} {isEar : List Pt → N
     exact fun t ht => mem_fan ht
   · exact (earClip_ok isEar _ p ts h).2.2
 
+theorem triangulateCell_length {isConvex : List Pt → Bool} {isEar : List Pt → Nat → Bool}
+    {p : List Pt} {ts : List Tri} (h : triangulateCell isConvex isEar p = .ok ts) :
+    ts.length = p.length - 2 := by
+  unfold triangulateCell at h
+  split at h
+  · simp only [Except.ok.injEq] at h
+    subst h
+    exact fan_length p
+  · have := (earClip_ok isEar _ p ts h).1
+    omega
+
+/-- The number of rows written equals the number pre-allocated. -/
+theorem cellTriangles_length (isConvex : List Pt → Bool) (isEar : List Pt → Nat → Bool) :
+    ∀ (cells : List (Option (List Pt))) (k : Nat) (out : List (Nat × Tri)),
+    cellTriangles isConvex isEar k cells = .ok out → out.length = totalTriangles cells
+  | [], k, out, h => by
+      simp only [cellTriangles, Except.ok.injEq] at h
+      subst h; rfl
+  | none :: rest, k, out, h => by
+      simp only [cellTriangles] at h
+      simpa [totalTriangles] using cellTriangles_length isConvex isEar rest (k + 1) out h
+  | some p :: rest, k, out, h => by
+      simp only [cellTriangles] at h
+      cases hcell : triangulateCell isConvex isEar p with
+      | error e => simp [hcell] at h
+      | ok ts =>
+        cases hrest : cellTriangles isConvex isEar (k + 1) rest with
+        | error e => simp [hcell, hrest] at h
+        | ok more =>
+          simp only [hcell, hrest, Except.ok.injEq] at h
+          subst h
+          simp only [List.length_append, List.length_map, totalTriangles,
+            triangulateCell_length hcell, cellTriangles_length isConvex isEar rest (k + 1) more hrest]
+
 /-- Every triangle of `cellTriangles` has its three vertices among the coordinates of
 the cells (in fact of its own cell). -/
 theorem cellTriangles_mem (isConvex : List Pt → Bool) (isEar : List Pt → Nat → Bool) :
